@@ -10,4 +10,6 @@ def cases(tier, seed):
 
 def check(case):
     g = S.from_json(case['G'])
-    return K.c08(g, 4), G.nontrivial(g), 1
+    fails = K.c08(g, 4)
+    if len(g[1]) <= 1: fails += K.c08(g, 3, extra_vars=['X'], extra_terms=['a', 'c'])      # declared but unused symbols
+    return fails, G.nontrivial(g), 1
